@@ -300,6 +300,8 @@ func spec_eq[T any](a, b T) bool                        { panic("ghost: structur
 func spec_all[T any](p func(T) bool) bool               { panic("ghost: unbounded quantifier") }
 func spec_any[T any](p func(T) bool) bool               { panic("ghost: unbounded quantifier") }
 func spec_fresh(p any) bool                             { panic("ghost: allocation predicate") }
+// spec_existed(p): the object p refers to already existed when the function under verification was entered.
+func spec_existed(p any) bool { panic("ghost: allocation predicate") }
 func spec_assert(c bool) {
 	if !c {
 		panic("ghost assertion failed")
@@ -383,6 +385,9 @@ const (
 	spec_Deferred = 3
 )
 
+// spec_callMark(): len(spec_fx()) at the moment user code was most recently invoked (ghost): relates the two logs in time.
+func spec_callMark() int { panic("ghost: call mark") }
+
 // spec_calls(): the call log so far, in order (ghost).
 func spec_calls() []spec_Call { panic("ghost: call log") }
 
@@ -393,3 +398,7 @@ func spec_pipeline() []string { panic("ghost: formatter pipeline log") }
 // spec_parsed() / spec_parsedName(): the source text and file name most recently handed to go/parser (ghost).
 func spec_parsed() string     { panic("ghost: parsed text") }
 func spec_parsedName() string { panic("ghost: parsed file name") }
+
+// spec_mapKeys(m) / spec_mapVals(m): the keys and values stored so far in a sync.Map, in insertion order (ghost).
+func spec_mapKeys(m any) []any { panic("ghost: sync.Map keys") }
+func spec_mapVals(m any) []any { panic("ghost: sync.Map values") }
